@@ -65,3 +65,17 @@ package cache
 // Every affinity parsed from an annotation is validated (hence clamped) before it is stored.
 //@ func (*podContainerAffinity).parseFull tags=C19
 //@ assert[C19] in (*podContainerAffinity).parseFull at "ca = append(ca, a)": -1000 <= a.Weight && a.Weight <= 1000
+
+// ---- C20: resource requirements reconstructed from cgroup parameters --------------------------------
+
+//@ func estimateResourceRequirements
+//@   requires r != nil
+//@   let shares = int64(r.GetCpu().GetShares().GetValue())
+//@   let quota = r.GetCpu().GetQuota().GetValue()
+//@   let period = int64(r.GetCpu().GetPeriod().GetValue())
+//@   requires 0 <= shares && shares <= 1 << 40 && 0 <= quota && quota <= 1 << 40 && 0 <= period && period <= 1 << 30
+//@   ensures[C20] SharesToMilliCPU(shares) > 0 ==> corev1.ResourceCPU in result.Requests && qmilli(result.Requests[corev1.ResourceCPU]) == SharesToMilliCPU(shares)
+//@   ensures[C20] SharesToMilliCPU(shares) <= 0 ==> !(corev1.ResourceCPU in result.Requests)
+//@   ensures[C20] qosClass == corev1.PodQOSGuaranteed ==> result.Limits[corev1.ResourceCPU] == result.Requests[corev1.ResourceCPU]
+//@   ensures[C20] (qosClass == corev1.PodQOSBurstable || qosClass == corev1.PodQOSBestEffort) && QuotaToMilliCPU(quota, period) > 0 ==>
+//@        corev1.ResourceCPU in result.Limits && qmilli(result.Limits[corev1.ResourceCPU]) == QuotaToMilliCPU(quota, period)
